@@ -284,6 +284,11 @@ def check(prop, tier, only_key=None):
             json.dump(ev, fh, indent=1, default=str)
     print(f'check {prop} [{tier}]: {obligations} obligations, {discharged} discharged, {len(undecided)} undecided, '
           f'{len(hit)} known findings, {len(new)} violations, {ev["wall_s"]}s')
+    floor = getattr(meta, 'OB_FLOOR', {}).get(prop, 0)
+    if rc == 0 and only_key is None and obligations < floor:
+        print(f'check {prop}: only {obligations} obligations were generated, below the counted floor {floor}: the rules lost their anchors '
+              f'(generated impls not found where expected), no verdict')
+        return 2
     if incomplete:
         for m in incomplete:
             print(f'check {prop}: part of the analysis could not be built: {m}')
